@@ -4,7 +4,7 @@
 
   jssem  fields: sources (ignored by the model), compiled files `(files (file NAME cmds…) …)`,
          file name (hex), template name (hex, qualified), data `(m (KEY value)…)` (values as in jsgen,
-         no floats), fuel
+         no floats), fuel[, injected data `(m …)` | `-`, globals `(globals (NAME value) …)`]
          The model translates the body of the template with `Props/C04d.toCmds` (generator scope of a
          FIRST template of a file: a fresh frame, counter 0; autoescape mode of the template, else of
          the namespace), prints the statements with `renderStmts` (indentation 1) and runs them with
@@ -21,6 +21,7 @@
 -/
 import SoyVerif.Ops.Common
 import SoyVerif.Ops.Check
+import SoyVerif.Ops.JsGen
 import SoyVerif.Props.C04d
 import SoyVerif.Props.C04e
 import SoyVerif.Props.C04f
@@ -60,19 +61,22 @@ def findTemplate (name : Bytes) : List Cmd → Autoescape → Option (Block × A
 
 def sOutput : Bytes := b!"output"
 
+section
+variable [SoyVerif.Props.C04c.Globals]
+
 /-- the callee oracle of Spec/JsStmt for the compiled files: Props/C04e `genCall` with the templates looked up in the
     files — the generated function `name` is `genBody`: the statements of the template's body (translated from a
     fresh scope; the names' counter does not matter to their meaning), run from `opt_data` = the data object and
     `output = ''`, return its output; `depth` bounds the nesting of calls -/
-def calleeG (fs : List SoyFile) (fuel : Nat) : Nat → Bytes → JVal → JOut
-  | 0, _, _ => .unspec
-  | depth + 1, name, .obj kvs =>
+def calleeG (fs : List SoyFile) (fuel : Nat) : Nat → Callee
+  | 0, _, _, _ => .unspec
+  | depth + 1, name, .obj kvs, ij =>
     match fs.findSome? (fun f => findTemplate name f.body .unspecified) with
     | none => .unspec
     | some (body, ae) =>
       SoyVerif.Props.C04e.genBody libF fuel (calleeG fs fuel depth)
-        { (default : Registry.Tmpl) with name := name, body := body, autoescape := ae, nsAutoescape := ae } kvs
-  | _ + 1, _, _ => .unspec
+        { (default : Registry.Tmpl) with name := name, body := body, autoescape := ae, nsAutoescape := ae } kvs ij
+  | _ + 1, _, _, _ => .unspec
 
 /-- the functions of all files whose every template is in the fragment (Props/C04f `toFile`: the counter of
     generated names runs through each file) -/
@@ -81,6 +85,8 @@ def tableOf (fs : List SoyFile) : List JsFunc :=
     | some r => r.1
     | none => []
 
+end
+
 def answer (r : JOut) (text : String) : String :=
   match r with
   | .val (.str out) => "OK " ++ Bytes.toHexWire out ++ " " ++ text
@@ -88,38 +94,54 @@ def answer (r : JOut) (text : String) : String :=
   | .error => "ERROR " ++ text
   | .unspec => "UNSPEC " ++ text
 
+/-- the answer for a decoded request -/
+def run (fs : List SoyFile) (fnm tn : Bytes) (optData : List (Bytes × JVal)) (ij : Option (List (Bytes × JVal)))
+    (gs : List (Bytes × Value)) (fuel : Nat) : String :=
+  letI : SoyVerif.Props.C04c.Globals := ⟨gs⟩
+  match fs.find? (·.name == fnm) with
+  | none => "NOFILE"
+  | some file =>
+    match toFile file with
+    | some funcs =>
+      -- FUNCTION level: every template of the file is in the fragment.  The text is that of ALL its functions
+      -- (the file the generator writes ends with it); the entry function is CALLED through the table
+      if (funcs.1.find? (·.name == tn)).isSome then
+        answer (callFn libF (tableOf fs) fuel 9 tn (.obj optData) ij)
+          (Bytes.toHexWire (printPieces (funcs.1.flatMap (renderFunc false 0))) ++ " F")
+      else "NOTEMPLATE"
+    | none =>
+    match findTemplate tn file.body .unspecified with
+    | none => "NOTEMPLATE"
+    | some (.mk _ cmds, ae) =>
+      match toCmds ae sOutput cmds ⟨[[]], 0⟩ with
+      | none => "OUTSIDE"
+      | some r =>
+        let text := Bytes.toHexWire (printPieces (renderStmts false 1 r.1))
+        match execStmts libF (calleeG fs fuel 8) fuel r.1 ⟨optData, ij, [(sOutput, .str [])]⟩ with
+        | .ok e =>
+          (match e.locals.find? (·.1 == sOutput) with
+            | some (_, .str out) => "OK " ++ Bytes.toHexWire out ++ " " ++ text
+            | _ => "UNSPEC " ++ text)
+        | .error => "ERROR " ++ text
+        | .unspec => "UNSPEC " ++ text
+
+def decIj (s : String) : Option (Option (List (Bytes × JVal))) :=
+  if s == "-" then some none
+  else match (SExp.parse s).bind decJVal with
+    | some (.obj kvs) => some (some kvs)
+    | _ => none
+
 def ops : List Op := [
   ("jssem", fun f => match f with
     | [_, files, fname, tname, dataS, fuelS] =>
       match Check.decFiles files, Bytes.ofHex fname, Bytes.ofHex tname, (SExp.parse dataS).bind decJVal, fuelS.toNat? with
-      | some fs, some fnm, some tn, some (.obj optData), some fuel =>
-        match fs.find? (·.name == fnm) with
-        | none => "NOFILE"
-        | some file =>
-          match toFile file with
-          | some funcs =>
-            -- FUNCTION level: every template of the file is in the fragment.  The text is that of ALL its functions
-            -- (the file the generator writes ends with it); the entry function is CALLED through the table
-            if (funcs.1.find? (·.name == tn)).isSome then
-              answer (callFn libF (tableOf fs) fuel 9 tn (.obj optData))
-                (Bytes.toHexWire (printPieces (funcs.1.flatMap (renderFunc false 0))) ++ " F")
-            else "NOTEMPLATE"
-          | none =>
-          match findTemplate tn file.body .unspecified with
-          | none => "NOTEMPLATE"
-          | some (.mk _ cmds, ae) =>
-            match toCmds ae sOutput cmds ⟨[[]], 0⟩ with
-            | none => "OUTSIDE"
-            | some r =>
-              let text := Bytes.toHexWire (printPieces (renderStmts false 1 r.1))
-              match execStmts libF (calleeG fs fuel 8) fuel r.1 ⟨optData, none, [(sOutput, .str [])]⟩ with
-              | .ok e =>
-                (match e.locals.find? (·.1 == sOutput) with
-                  | some (_, .str out) => "OK " ++ Bytes.toHexWire out ++ " " ++ text
-                  | _ => "UNSPEC " ++ text)
-              | .error => "ERROR " ++ text
-              | .unspec => "UNSPEC " ++ text
+      | some fs, some fnm, some tn, some (.obj optData), some fuel => run fs fnm tn optData none [] fuel
       | _, _, _, _, _ => "BADTREE"
+    | [_, files, fname, tname, dataS, fuelS, ijS, globalsS] =>
+      match Check.decFiles files, Bytes.ofHex fname, Bytes.ofHex tname, (SExp.parse dataS).bind decJVal, fuelS.toNat?,
+        decIj ijS, Ops.JsGen.decGlobals globalsS with
+      | some fs, some fnm, some tn, some (.obj optData), some fuel, some ij, some gs => run fs fnm tn optData ij gs fuel
+      | _, _, _, _, _, _, _ => "BADTREE"
     | _ => "BADREQ")
 ]
 
